@@ -154,7 +154,8 @@ def rule_2(ctx):
         for addr, w in want.items():
             got = wb.value(addr)
             ctx.expect(S.same(got, w), anchor, f'{addr} when {ignore} is ignored', f'loaded with ignore_sheets={ignore}, {addr} evaluates to {got!r}, expected {w!r}')
-    ctx.floor(30, 'ignore list: names read, models loaded')
+    S.check_loads_are_independent(ctx, anchor, 'two loads in one process')
+    ctx.floor(50, 'ignore list: names read, models loaded')
 
 
 def rule_3(ctx):
